@@ -71,6 +71,9 @@ type monitor struct {
 	// only within one cache lifetime.
 	cacheEpoch int
 	base       *baseTree
+	// lockOnly: judge the lock-store history only (C08: tampered object storage
+	// may get damaged further, e.g. by a smuggled checkpoint in a staging bundle).
+	lockOnly bool
 }
 
 func newMonitor(w *world, base *baseTree) *monitor {
@@ -252,7 +255,7 @@ func (m *monitor) onStore(ev verifmc.Event) {
 		if ev.Applied && ev.HadOld && ev.Immut && !bytes.Equal(ev.Old, ev.Data) {
 			m.w.violate("C04", "immutable object %q rewritten with different bytes (%d -> %d bytes)", ev.Key, len(ev.Old), len(ev.Data))
 		}
-		if ev.Applied && ev.Key == "checkpoint" {
+		if ev.Applied && ev.Key == "checkpoint" && !m.lockOnly {
 			ci, err := parseCP(ev.Data)
 			if err != nil {
 				m.w.violate("C01", "published checkpoint does not verify under the log key: %v", err)
